@@ -49,7 +49,7 @@ DropSess(hs) == fpend' = [h \in (DOMAIN fpend) \ hs |-> fpend[h]]
 
 TReset ==
     /\ IsEv("Reset")
-    /\ tok'    = [t \in Tokens |-> [so |-> InitSoPin, user |-> InitUserPin]]
+    /\ tok'    = [t \in Tokens |-> [so |-> InitSoPin, user |-> InitUserPin, there |-> TRUE]]
     /\ login'  = [t \in Tokens |-> "none"]
     /\ sess' = <<>> /\ obj' = <<>> /\ oh' = <<>> /\ issued' = {} /\ fop' = <<>> /\ dead' = {}
     /\ rv' = "OK" /\ out' = <<>> /\ fpend' = <<>>
@@ -59,6 +59,7 @@ TClose    == IsEv("MClose") /\ CloseSession(E.h) /\ Post /\ DropSess(IF rv' = "O
 TCloseAll == IsEv("MCloseAll") /\ CloseAllSessions(E.t) /\ Post /\ DropSess(SessionsOf(E.t))
 TInfo     == IsEv("MInfo") /\ GetSessionInfo(E.h) /\ Post /\ Keep
              /\ (rv' = "OK" => out' = <<E.st>>)
+TVanish   == IsEv("MVanish") /\ Vanish(E.t) /\ Post /\ Keep
 TLogin    == IsEv("MLogin") /\ Login(E.h, E.u, E.pin) /\ Post /\ Keep
 TLogout   == IsEv("MLogout") /\ Logout(E.h) /\ Post /\ Keep
 TInitToken == IsEv("MInitToken") /\ InitToken(E.t, E.pin) /\ Post /\ Keep
@@ -143,7 +144,7 @@ TFindFinal == /\ IsEv("MFindFinal")
               /\ Post
 
 TInit == Init /\ l = 1 /\ fpend = <<>> /\ TLCSet(1, 1)
-TNext == \/ TReset \/ TOpen \/ TClose \/ TCloseAll \/ TInfo \/ TLogin \/ TLogout
+TNext == \/ TReset \/ TVanish \/ TOpen \/ TClose \/ TCloseAll \/ TInfo \/ TLogin \/ TLogout
          \/ TInitToken \/ TInitPIN \/ TSetPIN
          \/ TUse \/ TMake \/ TMakePair
          \/ TCreate \/ TCopy \/ TDestroy \/ TGetAttr \/ TSetAttr \/ TSize
